@@ -136,11 +136,48 @@ impl MidasFile {
 }
 
 /// LZ4 frame of `bytes` (the `lz4` crate's encoder = liblz4's frame format, the same
-/// container the DAQ's `lz4` command line tool writes).
+/// container the DAQ's `lz4` command line tool writes). The frame parameters an operator or
+/// the DAQ may legally choose - block size, linked or independent blocks, content checksum,
+/// compression level, flushing after every write (many small blocks) - vary with a hash of
+/// the content, so that they are a function of the scenario.
 pub fn lz4_frame(bytes: &[u8]) -> Vec<u8> {
+    let mut h: u64 = 0xcbf2_9ce4_8422_2325 ^ bytes.len() as u64;
+    for b in bytes.iter().take(4096) {
+        h = (h ^ *b as u64).wrapping_mul(0x0000_0100_0000_01b3);
+    }
+    lz4_frame_variant(bytes, h >> 16)
+}
+
+pub fn lz4_frame_variant(bytes: &[u8], v: u64) -> Vec<u8> {
     use std::io::Write;
-    let mut enc = lz4::EncoderBuilder::new().level(1).build(Vec::new()).expect("lz4 encoder");
-    enc.write_all(bytes).expect("lz4 write");
+    let mut b = lz4::EncoderBuilder::new();
+    b.level([1u32, 1, 0, 9][(v % 4) as usize]);
+    b.block_size(match (v >> 2) % 5 {
+        0 | 1 => lz4::BlockSize::Default,
+        2 => lz4::BlockSize::Max256KB,
+        3 => lz4::BlockSize::Max1MB,
+        _ => lz4::BlockSize::Max4MB,
+    });
+    b.block_mode(if (v >> 5) % 2 == 0 { lz4::BlockMode::Linked } else { lz4::BlockMode::Independent });
+    b.checksum(if (v >> 6) % 2 == 0 { lz4::ContentChecksum::ChecksumEnabled } else { lz4::ContentChecksum::NoChecksum });
+    let flush_each = (v >> 7) % 3 == 0;
+    b.auto_flush(flush_each);
+    let mut enc = b.build(Vec::new()).expect("lz4 encoder");
+    if flush_each {
+        // written in pieces of seeded size: with auto-flush every piece becomes its own block
+        let mut x = v | 1;
+        let mut pos = 0;
+        while pos < bytes.len() {
+            x ^= x << 13;
+            x ^= x >> 7;
+            x ^= x << 17;
+            let n = (1 + (x % 9000) as usize).min(bytes.len() - pos);
+            enc.write_all(&bytes[pos..pos + n]).expect("lz4 write");
+            pos += n;
+        }
+    } else {
+        enc.write_all(bytes).expect("lz4 write");
+    }
     let (out, res) = enc.finish();
     res.expect("lz4 finish");
     out
